@@ -324,6 +324,7 @@ def op_config(op):
 class C17(Check):
     prop = "C17"
     level = "exploration"
+    case_timeout_s = 400  # whole runs with plots, on a loaded machine
     quick_budget_s = 50.0
     thorough_budget_s = 840.0
     batch = 6
